@@ -1047,9 +1047,28 @@ func (se *shapeEval) typeShape1(t types.Type, which string) *Shape {
 	accessor := func(fl ast.Expr) (accessorT, bool) {
 		var ft *ast.FuncType
 		var body *ast.BlockStmt
+		// a local that names the accessor (next := …; dr.List(next, …)) is read as its one definition
+		if id, ok := ast.Unparen(fl).(*ast.Ident); ok && mi.fd.Body != nil {
+			if _, isVar := info.Uses[id].(*types.Var); isVar {
+				if d, ok := singleDefs(info, mi.fd.Body)[info.Uses[id]]; ok && d.n == 1 && d.rhs != nil {
+					fl = d.rhs
+				}
+			}
+		}
 		switch x := ast.Unparen(fl).(type) {
 		case *ast.FuncLit:
 			ft, body = x.Type, x.Body
+		case *ast.CallExpr:
+			// a factory of the package whose body is `return func(…) … { … }`: the accessor is that literal
+			if fobj := calleeFunc(info, x); fobj != nil && fobj.Pkg() == mi.pk.Types {
+				if hd := declOfFunc(mi.pk, fobj); hd != nil && hd.Body != nil && len(hd.Body.List) == 1 {
+					if r, ok := hd.Body.List[0].(*ast.ReturnStmt); ok && len(r.Results) == 1 {
+						if lit, ok := ast.Unparen(r.Results[0]).(*ast.FuncLit); ok {
+							ft, body = lit.Type, lit.Body
+						}
+					}
+				}
+			}
 		case *ast.SelectorExpr, *ast.Ident:
 			var obj types.Object
 			if sel, ok := x.(*ast.SelectorExpr); ok {
